@@ -38,7 +38,7 @@ C19 = dict(
          "the key's, and an fsync of that descriptor lies between the last data write and the rename onto the key. "
          "Non-trivial evaluation: the fault lies inside an overwrite, or a Delete, of a key which holds a value at that moment; "
          "distinct = distinct canonical scripts (FNV-1a 64) with at least one such evaluation. "
-         "TestC19Concurrent: 1-3 processes x 1-3 goroutines on one directory, 2-6 keys, each with one saving goroutine; loads, "
+         "TestC19Concurrent: 1-3 processes x 1-3 goroutines on one directory, 2-6 keys, each with one saving goroutine (1 case in 12: one process with 24 goroutines, each saving 256 KiB - 1 MiB values under its own key, so that Saves of different keys overlap inside their write calls); loads, "
          "lists and deletes of any key from anywhere; stable keys (saved before, never deleted) must always load, with versions "
          "never going back, and always be listed; loads return complete values only; afterwards every key holds its writer's last "
          "value (or nothing if somebody else deletes it). Counts as one evaluation per case (label concurrent-run), never as non-trivial: that count is reserved for fault points.",
